@@ -90,7 +90,9 @@ IDManager::GetHeartBeater()  //
 IDManager::HeartBeater::~HeartBeater()
 {  //
   DBGROUP_VERIF_POINT(kIdExitBegin, &_id_vec[*id_]);
-  _id_vec[*id_].store(false, kRelaxed);
+  const auto id = *id_;
+  id_.reset();  // expire the heartbeat before the ID can be handed to another thread
+  _id_vec[id].store(false, kRelaxed);
   DBGROUP_VERIF_POINT(kIdExitEnd, this);
 }
 
